@@ -2,6 +2,7 @@
 #include <string_theory/string_stream>
 
 #include <cstdarg>
+#include <filesystem>
 #include <string>
 #include <string_view>
 
@@ -22,7 +23,18 @@ const verif::Info verif_info = {
     "several doublings. Oracle: std::string model per stream; after every step size() and raw_buffer()[0,size) equal the model; to_string(true) equals the "
     "bytes when they are valid UTF-8 else throws unicode_error; to_string(false) is the Latin-1 -> UTF-8 transcoding; a moved-from stream is empty and "
     "usable; storage is in-object or an exclusively owned live heap block; no leak / double free. Non-trivial: the history crosses the in-object "
-    "capacity and has a truncate/erase/move afterwards.",
+    "capacity and has a truncate/erase/move afterwards. "
+    "Extended operation table (first input byte >= 80, ~69% of the generated histories; bytes 0..79 keep the original table): operator<< of const char8_t* (and its null pointer), std::u8string / "
+    "u8string_view up to 3000 bytes with NULs, string_view / wstring_view / u16string_view / u32string_view / u8string_view over exact-size heap blocks that are NOT followed by a terminator, large "
+    "ST::string and std::string temporaries, chained append(..).append(..); wide / UTF-16 / UTF-32 text of 255..4096 code points (1..4-byte characters, surrogate pairs) and short text with embedded "
+    "U+0000, each as C string, basic_string and view; ST::char_buffer / wchar_buffer / utf16_buffer / utf32_buffer / ST::null; std::filesystem::path (a//b, //server/x, long, non-ASCII; model = the bytes "
+    "it was built from); 27 ways of appending nothing (zero lengths, null pointers of every width, default-constructed views, empty strings); append_char with counts 4096..65535; a number of every "
+    "integer type, float or double written when the stream holds exactly capacity-k bytes, k = 0..21, capacity = 256..8192 reached from a fresh in-object state (the stream is reset by assigning an empty "
+    "temporary), followed by more text; short, unsigned short, wchar_t, char16_t, char32_t, char8_t and bool values (they reach operator<<(int/unsigned) by promotion; skipped if the class declares an "
+    "overload of its own); truncate/erase with every n followed by an append that lands the size on 256, 512, .. 4096 or one off; to_string(true|false, check_validity|substitute_invalid|assume_valid) "
+    "(substitute_invalid on ill-formed content: each offending byte becomes U+FFFD, the reading of C02); a = move(b); b = move(a) chains with appends in between; a stream moved from and refilled 2..10 "
+    "times while the receiving stream stays intact; assignment from a temporary holding 0, 5, C-1, C, C+1, 3C bytes; one chained << expression over seven overloads returning the stream itself; appends whose growth allocation fails (bad_alloc propagates, the state the stream then reports is adopted and must "
+    "stay valid: no foreign or double free, no write outside its storage in the rest of the history).",
     false, "exploration"};
 
 namespace {
@@ -37,6 +49,8 @@ struct World {
     Slot s[NSLOT];
     std::string log; bool want_log = false;
     bool crossed = false, after_cross = false;
+    std::vector<const char *> labs;          // distinct labels of this history, in order of first occurrence
+    void lab(const char *l) { for (const char *x : labs) if (x == l || !strcmp(x, l)) return; labs.push_back(l); }
 
     SS *place(int i) { s[i].raw = ::malloc(sizeof(SS)); memset(s[i].raw, 0xEE, sizeof(SS)); return static_cast<SS *>(s[i].raw); }
     void destroy(int i) { if (!s[i].obj) return; { va::LibScope l; s[i].obj->~SS(); } memset(s[i].raw, 0xDD, sizeof(SS)); ::free(s[i].raw); s[i].raw = nullptr; s[i].obj = nullptr; }
@@ -104,15 +118,79 @@ std::string bytes(verif::Reader &r, size_t n, bool allow_high) {
     return b;
 }
 
-std::string run(verif::Reader &r, Case &c, World &w) {
+// ----- extended operation table (codes 32..48) ---------------------------------------------------------------------------
+const int kNumOps = 50;
+
+// A temporary stream in its own exact-size heap block (writing past the object is an ASan report).
+struct Temp {
+    void *raw; SS *obj = nullptr;
+    Temp() { raw = ::malloc(sizeof(SS)); memset(raw, 0xEE, sizeof(SS)); }
+    ~Temp() { if (obj) { try { va::LibScope l; obj->~SS(); } catch (...) {} } ::free(raw); }
+    Temp(const Temp &) = delete; Temp &operator=(const Temp &) = delete;
+    std::string same(const std::string &m, const char *what) const {
+        char msg[300];
+        if (obj->size() != m.size()) { snprintf(msg, sizeof msg, "%s reports size %zu, the bytes it must hold number %zu", what, obj->size(), m.size()); return msg; }
+        const char *d = obj->raw_buffer();
+        if (!d) { snprintf(msg, sizeof msg, "%s raw_buffer() is null", what); return msg; }
+        bool in = d >= (const char *)raw && d < (const char *)raw + sizeof(SS);
+        if (in ? d + m.size() > (const char *)raw + sizeof(SS) : !va::owns(d, m.size())) { snprintf(msg, sizeof msg, "%s (size %zu) raw_buffer() is neither in-object nor the start of a live heap block large enough", what, m.size()); return msg; }
+        if (memcmp(d, m.data(), m.size()) != 0) { size_t k = 0; while (d[k] == m[k]) k++; snprintf(msg, sizeof msg, "%s byte %zu of %zu is %02X, the model has %02X", what, k, m.size(), (unsigned char)d[k], (unsigned char)m[k]); return msg; }
+        return std::string();
+    }
+};
+
+// scalar values of a long text: 255..4096 code points from a palette with 1..4-byte characters (UTF-16: surrogate pairs)
+std::vector<uint32_t> long_scalars(verif::Reader &r) {
+    static const uint16_t lens[] = {257, 300, 1023, 1024, 1025, 1500, 4096, 256, 255, 2048};
+    static const uint32_t pal[] = {'a', 'b', 0xE9, 'c', 0x20AC, 'd', 0x1F600, 'e', 0x10FFFF, 'f', 0xFFFD, 0x7FF, 0x800, 0xFFFF, 0x10000};
+    size_t n = r.pick(lens); uint8_t style = r.u8();
+    std::vector<uint32_t> v;
+    for (size_t i = 0; i < n; i++) v.push_back((style & 3) == 0 ? (uint32_t)('a' + i % 26) : pal[(i * (1 + (style >> 6)) + style) % 15]);
+    return v;
+}
+std::string utf8_of(const std::vector<uint32_t> &sc) { ref::Units u = ref::encode(ref::UTF8, sc); return std::string(u.begin(), u.end()); }
+
+// `s << text` for text of width wd (0 char16_t, 1 char32_t, 2 wchar_t) in form 0 C string (exact-size NUL-terminated block),
+// 1 std::basic_string, 2 std::basic_string_view over an exact-size block that is NOT followed by a terminator
+template <class Ch> void put_units(SS &s, const std::basic_string<Ch> &t, int form) {
+    if (form == 0) { verif::Exact<Ch> e(t.data(), t.size(), true); va::LibScope l; s << (const Ch *)e.data(); }
+    else if (form == 1) { va::LibScope l; s << t; }
+    else { verif::Exact<Ch> e(t.data(), t.size(), false); va::LibScope l; s << std::basic_string_view<Ch>(e.data(), e.size()); }
+}
+void put_wide(SS &s, const std::vector<uint32_t> &sc, int wd, int form) {
+    if (wd == 0) { std::u16string t; for (uint32_t x : ref::encode(ref::UTF16, sc)) t.push_back((char16_t)x); put_units(s, t, form); }
+    else if (wd == 1) put_units(s, std::u32string(sc.begin(), sc.end()), form);
+    else if (sizeof(wchar_t) == 4) put_units(s, std::wstring(sc.begin(), sc.end()), form);
+    else { std::wstring t; for (uint32_t x : ref::encode(ref::UTF16, sc)) t.push_back((wchar_t)x); put_units(s, t, form); }
+}
+
+// Does the stream class declare operator<< for exactly T?  (If not, `s << T` is the promoted integer overload.)
+template <class T> concept ExactInserter = requires { static_cast<SS &(SS::*)(T)>(&SS::operator<<); };
+// s << v for a type that reaches the stream through the integral promotions: the model is the decimal text of the promoted value.
+// Returns false (nothing done) when the class has an overload of its own for T - its text is then not "an integer".
+template <class T> bool put_promoted(SS &s, T v, std::string &want) {
+    if constexpr (ExactInserter<T>) { (void)s; (void)v; (void)want; return false; }
+    else { want = std::to_string(+v); va::LibScope l; s << v; return true; }
+}
+
+std::string substitute_model(const std::string &m) {       // C02's reading of substitute_invalid for UTF-8 kept as UTF-8
+    ref::Units u; for (unsigned char ch : m) u.push_back(ch);
+    ref::Expect e = ref::expect(ref::UTF8, ref::UTF8, ref::SUBSTITUTE, u);
+    return std::string(e.out.begin(), e.out.end());
+}
+
+// `ext`: the extended operation table (first input byte >= 80; bytes 0..79 keep the original 32-entry table and its decoding).
+std::string run(verif::Reader &r, Case &c, World &w, bool ext) {
     va::reset();
     size_t nops = 1 + r.range(0, 79);
+    if (ext) w.lab("x:extended-op-table");
     for (size_t k = 0; k < nops; k++) {
-        int op = (int)r.range(0, 31), i = (int)r.idx(NSLOT), j = (int)r.idx(NSLOT);
+        int op = (int)r.range(0, ext ? 63 : 31), i = (int)r.idx(NSLOT), j = (int)r.idx(NSLOT);
+        if (op >= kNumOps) op -= 32;                          // unassigned codes of the extended table fall back to the original operation
         Slot &S = w.s[i];
         if (op >= 2 && !S.obj) op = 0;                       // anything on a missing stream becomes "create"
         size_t before = S.obj ? S.model.size() : 0;
-        if (S.obj && S.model.size() > 65536 && op >= 4 && op <= 23) op = 24;   // keep histories bounded: truncate instead
+        if (S.obj && S.model.size() > 65536 && ((op >= 4 && op <= 23) || op >= 32)) op = 24;   // keep histories bounded: truncate instead
         try {
             switch (op) {
             case 0: case 1: if (S.obj) continue; { SS *q = w.place(i); va::LibScope l; S.obj = new (q) SS(); } S.model.clear(); w.note("%d=SS(); ", i); break;
@@ -121,13 +199,13 @@ std::string run(verif::Reader &r, Case &c, World &w) {
                 if (t < 0) continue;
                 { SS *q = w.place(t); va::LibScope l; w.s[t].obj = new (q) SS(std::move(*S.obj)); }
                 w.s[t].model = S.model; S.model.clear();
-                c.label(w.s[t].model.size() > C ? "move-construct-heap" : "move-construct-inobject");
+                w.lab(w.s[t].model.size() > C ? "move-construct-heap" : "move-construct-inobject");
                 if (w.crossed) w.after_cross = true;
                 w.note("%d=SS(move %d); ", t, i); break; }
             case 3: {   // move-assign between distinct streams
                 if (i == j || !w.s[j].obj) continue;
                 { va::LibScope l; *S.obj = std::move(*w.s[j].obj); }
-                c.label((S.model.size() > C ? (w.s[j].model.size() > C ? "move-assign heap<-heap" : "move-assign heap<-inobject") : (w.s[j].model.size() > C ? "move-assign inobject<-heap" : "move-assign inobject<-inobject")));
+                w.lab((S.model.size() > C ? (w.s[j].model.size() > C ? "move-assign heap<-heap" : "move-assign heap<-inobject") : (w.s[j].model.size() > C ? "move-assign inobject<-heap" : "move-assign inobject<-inobject")));
                 S.model = w.s[j].model; w.s[j].model.clear();
                 if (w.crossed) w.after_cross = true;
                 w.note("%d=move %d; ", i, j); break; }
@@ -149,7 +227,7 @@ std::string run(verif::Reader &r, Case &c, World &w) {
                     va::LibScope l; if (form == 0) *S.obj << e.data(); else if (form == 1) *S.obj << t; else *S.obj << std::u32string_view(t); }
                 else { std::wstring t(sc.begin(), sc.end()); verif::Exact<wchar_t> e(t.data(), t.size(), true);
                     va::LibScope l; if (form == 0) *S.obj << e.data(); else if (form == 1) *S.obj << t; else *S.obj << std::wstring_view(t); }
-                S.model += want; c.label("wide-text"); w.note("%d<<wide%d(%zu scalars); ", i, op == 11 ? 16 : 32, sc.size()); break; }
+                S.model += want; w.lab("wide-text"); w.note("%d<<wide%d(%zu scalars); ", i, op == 11 ? 16 : 32, sc.size()); break; }
             case 14: case 15: case 16: {   // integers of every type incl. extremes
                 static const long long edges[] = {0, 1, -1, 9, 10, -10, 127, -128, 255, 32767, -32768, 65535, 2147483647LL, -2147483647LL - 1, 4294967295LL, 9223372036854775807LL, -9223372036854775807LL - 1};
                 long long v = r.flag() ? r.pick(edges) : (long long)r.bits64();
@@ -173,11 +251,11 @@ std::string run(verif::Reader &r, Case &c, World &w) {
                     default: *S.obj << (unsigned long long)v; break;
                     }
                 }
-                S.model += want; c.label("integer"); w.note("%d<<int(%s); ", i, want.c_str()); break; }
+                S.model += want; w.lab("integer"); w.note("%d<<int(%s); ", i, want.c_str()); break; }
             case 17: { static const double dv[] = {0.0, -0.0, 1.5, -2.25, 1e100, 1e-300, 3.14159265358979, 1e6, 123456789.0, 5e-324, 1.7976931348623157e308};
                 double v = r.pick(dv); bool f = r.flag(); std::string want = f ? fmt_g((double)(float)v) : fmt_g(v);
                 { va::LibScope l; if (f) *S.obj << (float)v; else *S.obj << v; }
-                S.model += want; c.label("float"); w.note("%d<<%s(%s); ", i, f ? "float" : "double", want.c_str()); break; }
+                S.model += want; w.lab("float"); w.note("%d<<%s(%s); ", i, f ? "float" : "double", want.c_str()); break; }
             case 18: { char ch = (char)r.u8(); { va::LibScope l; *S.obj << ch; } S.model.push_back(ch); w.note("%d<<char; ", i); break; }
             case 19: case 20: { std::string b = bytes(r, append_len(r, before) % 600, false); ST::string t = ST::string::from_validated(b.data(), b.size());
                 { va::LibScope l; *S.obj << t; } S.model += b; w.note("%d<<ST::string(%zu); ", i, b.size()); break; }
@@ -190,13 +268,13 @@ std::string run(verif::Reader &r, Case &c, World &w) {
                 size_t n = r.pick(ns);
                 { va::LibScope l; S.obj->truncate(n); } if (n < sz) S.model.resize(n);
                 if (w.crossed) w.after_cross = true;
-                c.label("truncate"); w.note("%d.truncate(%zu); ", i, n); break; }
+                w.lab("truncate"); w.note("%d.truncate(%zu); ", i, n); break; }
             case 26: { { va::LibScope l; S.obj->truncate(); } S.model.clear(); if (w.crossed) w.after_cross = true; w.note("%d.truncate(); ", i); break; }
             case 27: case 28: { size_t sz = S.model.size(); const size_t ns[] = {0, 1, sz / 2, sz ? sz - 1 : 0, sz, sz + 1, (size_t)-1};
                 size_t n = r.pick(ns);
                 { va::LibScope l; S.obj->erase(n); } S.model.resize(n < sz ? sz - n : 0);
                 if (w.crossed) w.after_cross = true;
-                c.label("erase"); w.note("%d.erase(%zu); ", i, n); break; }
+                w.lab("erase"); w.note("%d.erase(%zu); ", i, n); break; }
             case 29: case 30: {   // to_string in both readings
                 const std::string &m = S.model;
                 bool threw = false; std::string got;
@@ -209,14 +287,219 @@ std::string run(verif::Reader &r, Case &c, World &w) {
                 if (got != m) return "to_string(true, assume_valid) differs from the stream content";
                 { va::LibScope l; ST::string t = S.obj->to_string(false); got.assign(t.c_str(), t.size()); }
                 if (got != latin1_to_utf8(m)) return "to_string(false) is not the Latin-1 -> UTF-8 transcoding of the content";
-                c.label("to_string"); w.note("%d.to_string(); ", i); break; }
+                w.lab("to_string"); w.note("%d.to_string(); ", i); break; }
+            // ---------------------------------------------------------------- extended table
+            case 32: {   // char8_t C string (and the null pointer)
+                if (r.chance(32)) { { va::LibScope l; *S.obj << (const char8_t *)nullptr; } w.lab("x:null-or-zero-length"); w.note("%d<<(char8_t*)null; ", i); break; }
+                std::string b = bytes(r, append_len(r, before) % 600, true); for (char &ch : b) if (!ch) ch = '0';
+                verif::Exact<char> e(b.data(), b.size(), true);
+                { va::LibScope l; *S.obj << reinterpret_cast<const char8_t *>(e.data()); }
+                S.model += b; w.lab("x:char8_t-text"); w.note("%d<<u8cstr(%zu); ", i, b.size()); break; }
+            case 33: {   // std::u8string / u8string_view: long, with NULs, the view over an unterminated exact-size block
+                std::string b = bytes(r, append_len(r, before) % 3000, true); int form = (int)r.range(0, 2);
+                if (form == 0) { std::u8string t(reinterpret_cast<const char8_t *>(b.data()), b.size()); va::LibScope l; *S.obj << t; }
+                else if (form == 1) { verif::Exact<char> e(b.data(), b.size()); va::LibScope l; *S.obj << std::u8string_view(reinterpret_cast<const char8_t *>(e.data()), e.size()); }
+                else { std::u8string t(reinterpret_cast<const char8_t *>(b.data()), b.size()); va::LibScope l; *S.obj << std::move(t); }
+                S.model += b; w.lab("x:char8_t-text"); w.note("%d<<u8string/%d(%zu); ", i, form, b.size()); break; }
+            case 34: {   // narrow text of any size: string_view over an unterminated block, large ST::string, std::string temporary, chained append
+                int form = (int)r.range(0, 3);
+                std::string b = bytes(r, append_len(r, before), form != 1);
+                if (form == 0) { verif::Exact<char> e(b.data(), b.size()); va::LibScope l; *S.obj << std::string_view(e.data(), e.size()); }
+                else if (form == 1) { ST::string t = ST::string::from_validated(b.data(), b.size()); va::LibScope l; *S.obj << t; }
+                else if (form == 2) { std::string t(b); va::LibScope l; *S.obj << std::move(t); }
+                else { size_t h = b.size() / 2; verif::Exact<char> e1(b.data(), h), e2(b.data() + h, b.size() - h); va::LibScope l; S.obj->append(e1.data(), e1.size()).append(e2.data(), e2.size()).append_char('#', 0); }
+                S.model += b; w.lab("x:unterminated-view-or-large-string"); w.note("%d<<narrow/%d(%zu); ", i, form, b.size()); break; }
+            case 35: case 36: {   // wide / UTF-16 / UTF-32 text: 35 long (255..4096 code points), 36 short with embedded U+0000; three forms each
+                std::vector<uint32_t> sc; int wd = (int)r.range(0, 2), form = (int)r.range(0, 2);
+                if (op == 35) sc = long_scalars(r); else { sc = ugen::scalars(r, 60); if (form != 0 && r.flag()) sc.insert(sc.begin() + (long)r.idx(sc.size() + 1), 0u); }
+                if (form == 0) for (uint32_t &v : sc) if (!v) v = 0x20AC;          // a C string ends at its first NUL
+                std::string want = utf8_of(sc);
+                put_wide(*S.obj, sc, wd, form);
+                S.model += want; w.lab(op == 35 ? "x:wide-text>=255-code-points" : "x:wide-text-exact-view/NUL");
+                w.note("%d<<wide%d/%d(%zu scalars); ", i, wd, form, sc.size()); break; }
+            case 37: {   // ST buffers and ST::null (implicit conversion to ST::string)
+                std::vector<uint32_t> sc = r.chance(40) ? long_scalars(r) : ugen::scalars(r, 300);
+                std::string want = utf8_of(sc); int kind = (int)r.range(0, 4);
+                if (kind == 0) { ST::char_buffer b(want.data(), want.size()); va::LibScope l; *S.obj << b; }
+                else if (kind == 1) { std::wstring t(sc.begin(), sc.end()); if (sizeof(wchar_t) != 4) { t.clear(); for (uint32_t x : ref::encode(ref::UTF16, sc)) t.push_back((wchar_t)x); } ST::wchar_buffer b(t.data(), t.size()); va::LibScope l; *S.obj << b; }
+                else if (kind == 2) { std::u16string t; for (uint32_t x : ref::encode(ref::UTF16, sc)) t.push_back((char16_t)x); ST::utf16_buffer b(t.data(), t.size()); va::LibScope l; *S.obj << b; }
+                else if (kind == 3) { std::u32string t(sc.begin(), sc.end()); ST::utf32_buffer b(t.data(), t.size()); va::LibScope l; *S.obj << b; }
+                else { want.clear(); va::LibScope l; *S.obj << ST::null; }
+                S.model += want; w.lab("x:ST-buffer"); w.note("%d<<buffer/%d(%zu bytes); ", i, kind, want.size()); break; }
+            case 38: {   // std::filesystem::path: the bytes of its u8string(), separators kept as written
+                static const char *shapes[] = {"a//b", "//server/x", "/", "", "a/", "./a/../b", "///", "dir/sub//file.txt", "a/./b", ".."};
+                std::string b;
+                if (r.flag()) b = r.pick(shapes);
+                else { b = utf8_of(r.chance(60) ? long_scalars(r) : ugen::scalars(r, 300)); for (char &ch : b) if (!ch) ch = '/'; if (b.size() > 4 && r.flag()) { b[b.size() / 2] = '/'; b[b.size() / 2 + 1] = '/'; } }
+                std::filesystem::path pth(b);
+                std::u8string back = pth.u8string();
+                if (std::string(reinterpret_cast<const char *>(back.data()), back.size()) != b) { if (!valid_utf8(b)) break; return "harness: std::filesystem::path did not keep its bytes"; }
+                { va::LibScope l; *S.obj << pth; }
+                S.model += b; w.lab("x:filesystem-path"); w.note("%d<<path(%zu); ", i, b.size()); break; }
+            case 39: {   // every way of appending nothing: zero lengths, null pointers, default-constructed views, empty strings
+                verif::Exact<char> z(nullptr, 0);
+                std::string es; std::wstring ew; std::u16string e16; std::u32string e32; std::u8string e8; ST::string est;
+                verif::Exact<wchar_t> zw(nullptr, 0, true); verif::Exact<char16_t> z16(nullptr, 0, true); verif::Exact<char32_t> z32(nullptr, 0, true); verif::Exact<char> z8(nullptr, 0, true);
+                {
+                    va::LibScope l;
+                    S.obj->append(z.data(), 0).append(nullptr).append(nullptr, ST_AUTO_SIZE).append(nullptr, 0).append_char('x', 0);
+                    *S.obj << (const wchar_t *)nullptr << (const char16_t *)nullptr << (const char32_t *)nullptr << (const char8_t *)nullptr << (const char *)nullptr;
+                    *S.obj << std::string_view() << std::wstring_view() << std::u16string_view() << std::u32string_view() << std::u8string_view();
+                    *S.obj << es << ew << e16 << e32 << e8 << est;
+                    *S.obj << (const char *)z8.data() << (const wchar_t *)zw.data() << (const char16_t *)z16.data() << (const char32_t *)z32.data() << reinterpret_cast<const char8_t *>(z8.data());
+                    S.obj->append(z8.data());
+                }
+                w.lab("x:null-or-zero-length"); w.note("%d<<nothing x27; ", i); break; }
+            case 40: {   // append_char with large counts
+                static const size_t counts[] = {4096, 8191, 8192, 8193, 16384, 32768, 65535, 3 * C + 1, 1};
+                size_t n = r.pick(counts); char ch = (char)r.u8();
+                { va::LibScope l; S.obj->append_char(ch, n); } S.model.append(n, ch);
+                w.lab("x:append_char>=4096"); w.note("%d.append_char(%02X,%zu); ", i, (unsigned char)ch, n); break; }
+            case 41: {   // a number written when the stream holds exactly capacity-k bytes (k = 0..21) at a capacity 256, 512, .. 8192; more text follows
+                static const size_t caps[] = {C, 2 * C, 4 * C, 8 * C, 16 * C, 32 * C};
+                const size_t cap = r.pick(caps), kk = r.range(0, 21), target = cap - kk;
+                if (S.model.size() > target || r.flag()) {        // from a fresh in-object state, so that the capacity in force after the fill is exactly `cap`
+                    { va::LibScope l; *S.obj = SS(); } S.model.clear();
+                    std::string why0 = w.check("after assigning an empty temporary"); if (!why0.empty()) return "step " + verif::unum(k) + " " + why0;
+                }
+                { size_t need = target - S.model.size(); { va::LibScope l; S.obj->append_char('.', need); } S.model.append(need, '.'); }
+                { std::string why0 = w.check("after filling to capacity-k"); if (!why0.empty()) return "step " + verif::unum(k) + " " + why0; }
+                static const long long vals[] = {-9223372036854775807LL - 1, 9223372036854775807LL, -1, 0, -2147483647LL - 1, 2147483647LL, 1234567890123456789LL, -123456789012LL, 4294967295LL, -32768, 99999, 7};
+                long long v = r.flag() ? r.pick(vals) : (long long)r.bits64();
+                int ty = (int)r.range(0, 7); std::string want;
+                switch (ty) {
+                case 0: want = std::to_string((int)v); { va::LibScope l; *S.obj << (int)v; } break;
+                case 1: want = std::to_string((unsigned int)v); { va::LibScope l; *S.obj << (unsigned int)v; } break;
+                case 2: want = std::to_string((long)v); { va::LibScope l; *S.obj << (long)v; } break;
+                case 3: want = std::to_string((unsigned long)v); { va::LibScope l; *S.obj << (unsigned long)v; } break;
+                case 4: want = std::to_string((long long)v); { va::LibScope l; *S.obj << (long long)v; } break;
+                case 5: want = std::to_string((unsigned long long)v); { va::LibScope l; *S.obj << (unsigned long long)v; } break;
+                case 6: { static const double dv[] = {-1.7976931348623157e308, 5e-324, -123456.5, 1e21, 0.1}; double d = r.pick(dv); want = fmt_g(d); { va::LibScope l; *S.obj << d; } break; }
+                default: { static const float fv[] = {-3.4028235e38f, 1.17549435e-38f, -0.5f, 16777216.0f}; float f = r.pick(fv); want = fmt_g((double)f); { va::LibScope l; *S.obj << f; } break; }
+                }
+                S.model += want;
+                { std::string why0 = w.check("after the number at capacity-k"); if (!why0.empty()) return "step " + verif::unum(k) + " " + why0; }
+                { std::string tail = bytes(r, r.range(0, 30), false); for (char &ch : tail) if (!ch) ch = '0'; verif::Exact<char> e(tail.data(), tail.size(), true); { va::LibScope l; *S.obj << e.data() << 'Z'; } S.model += tail; S.model += 'Z'; }
+                w.lab("x:number-at-capacity-k"); w.note("%d:size=%zu-%zu<<num/%d(%s)<<..; ", i, cap, kk, ty, want.c_str()); break; }
+            case 42: {   // types that reach the stream through the integral promotions: short, unsigned short, wchar_t, char16_t, char32_t, char8_t, bool
+                uint32_t bits = r.bits32(); std::string want; bool done = false; int ty = (int)r.range(0, 6);
+                switch (ty) {
+                case 0: done = put_promoted(*S.obj, (short)bits, want); break;
+                case 1: done = put_promoted(*S.obj, (unsigned short)bits, want); break;
+                case 2: done = put_promoted(*S.obj, (wchar_t)bits, want); break;
+                case 3: done = put_promoted(*S.obj, (char16_t)bits, want); break;
+                case 4: done = put_promoted(*S.obj, (char32_t)bits, want); break;
+                case 5: done = put_promoted(*S.obj, (char8_t)bits, want); break;
+                default: done = put_promoted(*S.obj, (bool)(bits & 1), want); break;
+                }
+                if (!done) continue;
+                S.model += want; w.lab("x:promoted-integer-type"); w.note("%d<<promoted/%d(%s); ", i, ty, want.c_str()); break; }
+            case 43: {   // truncate / erase, then append so that the size lands exactly on 256, 512, .. 4096 or one off
+                static const size_t marks[] = {C, 2 * C, 4 * C, 8 * C, 16 * C};
+                const size_t target = r.pick(marks) + r.range(0, 2) - 1;
+                size_t sz = S.model.size(); const size_t ns[] = {0, 1, sz / 2, sz ? sz - 1 : 0, sz, sz + 1, target > 3 ? target - 3 : 0, target, C};
+                size_t n = r.pick(ns);
+                if (r.flag()) { { va::LibScope l; S.obj->truncate(n); } if (n < sz) S.model.resize(n); w.note("%d.truncate(%zu)", i, n); }
+                else { { va::LibScope l; S.obj->erase(n); } S.model.resize(n < sz ? sz - n : 0); w.note("%d.erase(%zu)", i, n); }
+                if (w.crossed) w.after_cross = true;
+                { std::string why0 = w.check("after truncate/erase"); if (!why0.empty()) return "step " + verif::unum(k) + " " + why0; }
+                if (S.model.size() > target) { { va::LibScope l; S.obj->truncate(target); } S.model.resize(target); }
+                std::string b = bytes(r, target - S.model.size(), true); int form = (int)r.range(0, 3);
+                if (form == 0) { verif::Exact<char> e(b.data(), b.size()); va::LibScope l; S.obj->append(e.data(), e.size()); }
+                else if (form == 1) { b.assign(b.size(), 'p'); va::LibScope l; S.obj->append_char('p', b.size()); }
+                else if (form == 2) { va::LibScope l; *S.obj << b; }
+                else { verif::Exact<char> e(b.data(), b.size()); va::LibScope l; *S.obj << std::string_view(e.data(), e.size()); }
+                S.model += b; w.lab("x:truncate-then-land-on-2^n"); w.note("+%zu=%zu; ", b.size(), S.model.size()); break; }
+            case 44: {   // to_string(utf8, validation) for both readings and every validation mode
+                const std::string &m = S.model; const bool valid = valid_utf8(m);
+                std::string got; got.reserve(m.size() * 3 + 16);
+                static const ST::utf_validation_t modes[] = {ST::check_validity, ST::substitute_invalid, ST::assume_valid};
+                static const char *mname[] = {"check_validity", "substitute_invalid", "assume_valid"};
+                for (int mi = 0; mi < 3; mi++) {
+                    bool threw = false;
+                    try { va::LibScope l; ST::string t = S.obj->to_string(true, modes[mi]); got.assign(t.c_str(), t.size()); if (t.c_str()[t.size()] != 0) return "to_string() result not NUL-terminated"; }
+                    catch (const ST::unicode_error &) { threw = true; }
+                    std::string who = std::string("to_string(true, ") + mname[mi] + ")";
+                    if (mi == 0) {
+                        if (valid) { if (threw) return who + " threw unicode_error although the stream holds valid UTF-8"; if (got != m) return who + " differs from the stream content"; }
+                        else if (!threw) return who + " returned although the stream content is not valid UTF-8";
+                    } else {
+                        if (threw) return who + " threw unicode_error";
+                        if (mi == 2 || valid) { if (got != m) return who + " differs from the stream content (" + verif::quoted(got, 40) + " vs " + verif::quoted(m, 40) + ")"; }
+                        else if (got != substitute_model(m)) return who + " is not the content with each offending byte replaced by U+FFFD (" + verif::quoted(got, 60) + " for " + verif::quoted(m, 60) + ")";
+                    }
+                    try { va::LibScope l; ST::string t = S.obj->to_string(false, modes[mi]); got.assign(t.c_str(), t.size()); }
+                    catch (const ST::unicode_error &) { return std::string("to_string(false, ") + mname[mi] + ") threw unicode_error: Latin-1 text has no invalid bytes"; }
+                    if (got != latin1_to_utf8(m)) return std::string("to_string(false, ") + mname[mi] + ") is not the Latin-1 -> UTF-8 transcoding of the content";
+                }
+                w.lab(valid ? "x:to_string-all-modes" : "x:to_string-all-modes-invalid-content"); w.note("%d.to_string(*,*); ", i); break; }
+            case 45: {   // move-assignment chains between two live streams: a = move(b); b = move(a); ... with appends in between
+                if (i == j || !w.s[j].obj) continue;
+                Slot &T = w.s[j]; size_t rounds = 1 + r.range(0, 3);
+                for (size_t q = 0; q < rounds; q++) {
+                    { va::LibScope l; *S.obj = std::move(*T.obj); } S.model = T.model; T.model.clear();
+                    { std::string why0 = w.check("after a = move(b)"); if (!why0.empty()) return "step " + verif::unum(k) + " " + why0; }
+                    if (r.flag()) { std::string b = bytes(r, append_len(r, T.model.size()) % 700, false); { va::LibScope l; *T.obj << b; } T.model += b; }
+                    { va::LibScope l; *T.obj = std::move(*S.obj); } T.model = S.model; S.model.clear();
+                    { std::string why0 = w.check("after b = move(a)"); if (!why0.empty()) return "step " + verif::unum(k) + " " + why0; }
+                    if (r.flag()) { std::string b = bytes(r, append_len(r, S.model.size()) % 700, false); { va::LibScope l; *S.obj << b; } S.model += b; }
+                }
+                if (w.crossed) w.after_cross = true;
+                w.lab("x:move-assign-chain"); w.note("%d<=>%d x%zu; ", i, j, rounds); break; }
+            case 46: {   // a stream that is moved from and refilled again and again
+                size_t rounds = 2 + r.range(0, 8);
+                for (size_t q = 0; q < rounds; q++) {
+                    if (w.crossed) w.after_cross = true;
+                    Temp t; std::string held = S.model;
+                    { va::LibScope l; t.obj = new (t.raw) SS(std::move(*S.obj)); } S.model.clear();
+                    { std::string why0 = t.same(held, "the stream constructed from the moved one"); if (!why0.empty()) return "step " + verif::unum(k) + " " + why0; }
+                    { std::string why0 = w.check("after being moved from"); if (!why0.empty()) return "step " + verif::unum(k) + " " + why0; }
+                    std::string b = bytes(r, append_len(r, 0), true); verif::Exact<char> e(b.data(), b.size());
+                    { va::LibScope l; S.obj->append(e.data(), e.size()); } S.model += b;
+                    { std::string why0 = w.check("after refilling the moved-from stream"); if (!why0.empty()) return "step " + verif::unum(k) + " " + why0; }
+                    { std::string why0 = t.same(held, "the stream constructed from the moved one (after the source was refilled)"); if (!why0.empty()) return "step " + verif::unum(k) + " " + why0; }
+                    if (S.model.size() > C) w.crossed = true;
+                }
+                w.lab("x:moved-from-reused"); w.note("%d moved-from+refilled x%zu; ", i, rounds); break; }
+            case 47: {   // assignment from a temporary: empty, in-object content, heap content
+                static const size_t sizes[] = {0, 5, C - 1, C, C + 1, 3 * C};
+                size_t n = r.pick(sizes);
+                std::string b = bytes(r, n, true);
+                { Temp t; { va::LibScope l; t.obj = new (t.raw) SS(); t.obj->append(b.data(), b.size()); *S.obj = std::move(*t.obj); }
+                  std::string why0 = t.same(std::string(), "the temporary that was moved from"); if (!why0.empty()) return "step " + verif::unum(k) + " " + why0; }
+                S.model = b; if (w.crossed) w.after_cross = true;
+                w.lab("x:assign-from-temporary"); w.note("%d=temp(%zu); ", i, n); break; }
+            case 48: {   // one chained expression over several overloads
+                long long v = (long long)r.bits64(); std::string b = bytes(r, r.range(0, 40), false); for (char &ch : b) if (!ch) ch = '0';
+                verif::Exact<char> e(b.data(), b.size(), true); ST::string t = ST::string::from_validated(b.data(), b.size());
+                { va::LibScope l; SS &ret = (*S.obj << (int)v << e.data() << ':' << t << (unsigned long long)v << 2.5 << std::string_view(e.data(), e.size()));
+                  if (&ret != S.obj) return "operator<< did not return the stream it was applied to"; }
+                S.model += std::to_string((int)v) + b + ":" + b + std::to_string((unsigned long long)v) + "2.5" + b;
+                w.lab("x:chained-inserters"); w.note("%d<<int<<cstr<<char<<ST::string<<ull<<double<<view; ", i); break; }
+            case 49: {   // an append whose growth allocation fails: std::bad_alloc propagates; whatever valid state the stream reports is adopted
+                         // (what a failed operation leaves behind is C18's question), and it must go on behaving as an ordinary stream
+                size_t n = r.flag() ? before + C + r.range(0, 40) : append_len(r, before); int form = (int)r.range(0, 2);
+                std::string b = bytes(r, n, false); verif::Exact<char> e(b.data(), b.size()); ST::string t = form == 2 ? ST::string::from_validated(b.data(), b.size()) : ST::string();
+                if (form == 1) b.assign(b.size(), 'f');
+                bool failed = false;
+                va::arm_fault(1);
+                try { va::LibScope l; if (form == 0) S.obj->append(e.data(), e.size()); else if (form == 1) S.obj->append_char('f', b.size()); else *S.obj << t; }
+                catch (const std::bad_alloc &) { failed = true; }
+                va::arm_fault(0);
+                if (failed) {
+                    size_t sz = S.obj->size();
+                    if (sz > before + b.size()) return "step " + verif::unum(k) + ": after an append that failed with bad_alloc the stream reports size " + verif::unum(sz) + " (it held " + verif::unum(before) + ", " + verif::unum(b.size()) + " were offered)";
+                    S.model.assign(S.obj->raw_buffer(), sz);
+                    w.lab("x:append-with-failed-allocation");
+                } else S.model += b;
+                w.note("%d.append/%d(%zu)%s; ", i, form, b.size(), failed ? " [allocation failed]" : ""); break; }
             default: w.destroy(i); w.note("~%d; ", i); break;
             }
         } catch (...) {
             return "step " + verif::unum(k) + ": unexpected " + verif::describe_current_exception();
         }
-        if (S.obj && before <= C && S.model.size() > C) { w.crossed = true; c.label("crossed-inobject-capacity"); }
-        if (S.obj && S.model.size() > 4 * C) c.label("grew-past-4C");
+        if (S.obj && before <= C && S.model.size() > C) { w.crossed = true; w.lab("crossed-inobject-capacity"); }
+        if (S.obj && S.model.size() > 4 * C) w.lab("grew-past-4C");
         std::string why = w.check("after step");
         if (!why.empty()) return "step " + verif::unum(k) + " " + why;
     }
@@ -230,8 +513,10 @@ std::string run(verif::Reader &r, Case &c, World &w) {
 int verif_case(const uint8_t *data, size_t size, Case &c) {
     verif::Reader r(data, size, c);
     World w; w.want_log = c.want_text;
-    std::string why = run(r, c, w);
+    std::string why = run(r, c, w, size > 0 && data[0] >= 80);
     c.nontrivial = w.crossed && w.after_cross;
+    // Case keeps 12 labels: the classes of the extended table ("x:") first, then the others
+    for (int pass = 0; pass < 2; pass++) for (const char *l : w.labs) if ((l[0] == 'x' && l[1] == ':') == (pass == 0)) c.label(l);
     if (c.want_text) c.text = "C16 C=" + verif::unum(C) + "  " + (w.log.size() > 900 ? w.log.substr(0, 900) + "..." : w.log);
     va::reset();
     if (!why.empty()) return c.fail(why);
